@@ -10,6 +10,8 @@ CONSTANTS
   ReverseViewCached = FALSE
   AliasBoundToFirstObject = FALSE
   ShallowCopy = FALSE
+  ViewReplacesEmptyIndex = FALSE
+  WatchParts = FALSE
   SrcSteps = 0
   Emit = TRUE
 SPECIFICATION Spec
